@@ -52,8 +52,21 @@ func cylinderUVs(code int) *primitives.CylinderUVs {
 	return &primitives.CylinderUVs{}
 }
 
+// magnitude is the factor base^exp of the case's magnitude (Solids.tla: the
+// real dimension i is d[i]/16 * base^exp). Powers of two are exact.
+func magnitude(c Case) float64 {
+	if len(c.Mag) != 2 || c.Mag[1] == 0 {
+		return 1
+	}
+	if c.Mag[0] == 2 {
+		return math.Ldexp(1, c.Mag[1])
+	}
+	return math.Pow(float64(c.Mag[0]), float64(c.Mag[1]))
+}
+
 func buildPrim(c Case) modeling.Mesh {
-	d := func(i int) float64 { return float64(c.D[i]) / 16 }
+	mag := magnitude(c)
+	d := func(i int) float64 { return float64(c.D[i]) / 16 * mag }
 	switch c.Prim {
 	case "uvsphere":
 		return primitives.UVSphere(d(0), c.Rows, c.Cols)
@@ -150,9 +163,12 @@ func projectPrim(c Case, raw json.RawMessage, m modeling.Mesh, res, msg string) 
 		return ln
 	}
 	pos := m.Float3Attribute(modeling.PositionAttribute)
+	// The contract is scale invariant: positions are logged (and coincident
+	// ones merged) in units of the case's own magnitude.
+	unmag := 1 / magnitude(c)
 	ps := make([]vector3.Float64, pos.Len())
 	for i := range ps {
-		ps[i] = pos.At(i)
+		ps[i] = pos.At(i).Scale(unmag)
 		ln.Pos = append(ln.Pos, []int{
 			roundTo(ps[i].X(), float64(c.Scale), &ln.Exact), roundTo(ps[i].Y(), float64(c.Scale), &ln.Exact), roundTo(ps[i].Z(), float64(c.Scale), &ln.Exact)})
 	}
